@@ -1,6 +1,6 @@
 """Classes of Persist.tla (module level: they must pickle)."""
 from traits.api import (HasTraits, Int, List, Dict, Set, Str, Instance, ReadOnly, Property, cached_property, observe, Any,
-                        DelegatesTo)
+                        DelegatesTo, PrototypedFrom)
 
 
 class Leaf(HasTraits):
@@ -25,6 +25,7 @@ class Obj(HasTraits):
     total2 = Property(Int, depends_on="xs[]")      # legacy dependency declaration, cached
     cgrid = DelegatesTo("child", "grid")           # a deferred attribute whose target is a container of containers
     seen_total2 = Int(transient=True)
+    pv = PrototypedFrom("child", "value")          # reads child.value until it is given a value of its own (also a falsy one)
 
     def _n_changed(self):
         # a static handler of a trait copied BEFORE xs that reads the cached property (also while the object is being
